@@ -27,9 +27,27 @@ func TestProp_WholeRuns(t *testing.T) {
 			opts.Modes = []string{"users", "constant", "file"}
 		}
 		shape := vlib.GenShape(rt, opts)
+		handover := !long && rapid.IntRange(0, 2).Draw(rt, "stageHandover") == 0
+		if handover {
+			// a config file whose stages hand over while iterations are still running (bodies of 50 ms,
+			// stages of 100-150 ms, 20 ms between stages), with every second iteration failing
+			c := rapid.IntRange(1, 6).Draw(rt, "handoverConcurrency")
+			d1, d2 := rapid.IntRange(100, 150).Draw(rt, "stage1Ms"), rapid.IntRange(100, 150).Draw(rt, "stage2Ms")
+			shape = vlib.Shape{Mode: "file", Flags: map[string]string{}, Concurrency: c, MaxDuration: 5 * time.Second}
+			shape.FileYAML = fmt.Sprintf("scenario: %s\nlimits:\n  max-duration: 5s\n  concurrency: %d\n  max-iterations: 0\n  ignore-dropped: true\nstages:\n"+
+				"- duration: %dms\n  mode: users\n  concurrency: %d\n- duration: %dms\n  mode: constant\n  rate: %d/10ms\n  jitter: 0\n  distribution: none\n- duration: 120ms\n  mode: users\n  concurrency: %d\n",
+				vlib.ScenarioName, c, d1, c, d2, c, c)
+			shape.Desc = fmt.Sprintf("file c=%d stage-handover users(%dms)->constant(%dms)->users(120ms)", c, d1, d2)
+		}
 		failEvery := rapid.SampledFrom([]int{0, 2, 3, 5, 11}).Draw(rt, "failEvery")
 		panicEvery := rapid.SampledFrom([]int{0, 0, 7, 13}).Draw(rt, "panicEvery")
 		bodyUs := rapid.SampledFrom([]int{0, 0, 50, 500, 2000}).Draw(rt, "bodyMicros")
+		if shape.Mode == "file" && (handover || rapid.Bool().Draw(rt, "slowBodies")) {
+			bodyUs = 50000 // iterations outlive their config-file stage
+		}
+		if handover {
+			failEvery, panicEvery = 2, 0
+		}
 		metricsOn := rapid.IntRange(0, 3).Draw(rt, "metricsOn") != 0
 		// some runs are the second run on a metrics instance that already served an identical run
 		secondRun := !long && rapid.IntRange(0, 3).Draw(rt, "secondRunOnSameMetrics") == 0
@@ -99,6 +117,9 @@ func TestProp_WholeRuns(t *testing.T) {
 		}
 		if metricsOn {
 			cls = append(cls, "metrics-on")
+		}
+		if shape.Mode == "file" && bodyUs >= 50000 {
+			cls = append(cls, "iterations-outlive-their-stage")
 		}
 		if secondRun {
 			cls = append(cls, "second-run-on-same-metrics")
